@@ -200,6 +200,8 @@ def build_harness(variant="asan", extra_flags=None, harness_src="harness.cc"):
              "-I" + os.path.join(REPO, "src"), "-I" + os.path.join(VERIF, "harness"), "-pthread"]
     if variant == "asan":
         flags += SAN_FLAGS
+    elif variant == "ubsan":
+        flags += ["-fsanitize=undefined", "-fno-omit-frame-pointer"]
     elif variant == "tsan":
         flags += ["-fsanitize=thread"]
     elif variant == "plain":
